@@ -1156,7 +1156,11 @@ class Exec(object):
         args = []
         for a in e.args:
             if isinstance(a, ast.Starred):
-                args.extend(natives.iterate(self, self.eval(a.value)))
+                sv = self.eval(a.value)
+                if isinstance(sv, SBytes) and sv.concrete_len() is None:
+                    args.extend(self.expand_star_bytes(f, len(args), sv))
+                else:
+                    args.extend(natives.iterate(self, sv))
             else:
                 args.append(self.eval(a))
         kwargs = {}
@@ -1171,6 +1175,33 @@ class Exec(object):
                 kwargs[k.arg] = self.eval(k.value)
         self.cur_call = e
         return self.call(f, args, kwargs)
+
+    def callee_arity(self, f):
+        """(min, max) number of positional arguments, None if unknown/unbounded"""
+        bound = 0
+        if isinstance(f, BoundMethod):
+            f, bound = f.func, 1
+        if isinstance(f, ClassVal) and not f.builtin:
+            init, _ = f.lookup('__init__')
+            if isinstance(init, FuncVal):
+                f, bound = init, 1
+        if not isinstance(f, FuncVal) or f.node.args.vararg is not None:
+            return None
+        n = len(f.node.args.posonlyargs) + len(f.node.args.args) - bound
+        return (n - len(f.defaults), n)
+
+    def expand_star_bytes(self, f, given, sv):
+        """f(*b) with a symbolic-length byte string: fork on the lengths the
+        callee accepts, any other length is the TypeError Python raises"""
+        ar = self.callee_arity(f)
+        if ar is None or ar[1] - given > 16:
+            from . import natives
+            return list(natives.iterate(self, sv))
+        from .natives import zlen
+        for c in range(max(ar[0] - given, 0), ar[1] - given + 1):
+            if self.branch(mk_bool(zlen(sv) == c)):
+                return [mk_int(sv.at(i)) for i in range(c)]
+        self.throw('TypeError', 'wrong number of positional arguments')
 
     def eval_index(self, sl):
         if isinstance(sl, ast.Slice):
